@@ -112,6 +112,13 @@ func (s *Script) features(phase int, v int) string {
 	if v == 2 {
 		sb.WriteString("<c xmlns='http://jabber.org/protocol/caps' hash='sha-1' node='http://x' ver='abc='/><unknown xmlns='urn:x:feature'><deep><er/></deep></unknown>")
 	}
+	if v == 4 {
+		// features named like the ones the client knows, but from other namespaces (an older protocol version, somebody
+		// else's extension): they offer nothing
+		sb.WriteString("<sm xmlns='urn:xmpp:sm:2'/><starttls xmlns='urn:x:other'><required/></starttls>" +
+			"<mechanisms xmlns='urn:x:other'><mechanism>PLAIN</mechanism><mechanism>X-OAUTH2</mechanism></mechanisms>" +
+			"<bind xmlns='urn:x:other'/><session xmlns='urn:x:other'/>")
+	}
 	switch phase {
 	case 1: // before TLS / auth
 		if s.OfferTLS {
